@@ -51,6 +51,10 @@ class StrEval:
             return t[1]
         if k == 'ref':
             return t
+        if k == 'dict':
+            return {self.ev(a): self.ev(b) for a, b in t[1]}
+        if k in ('tuple', 'list'):
+            return tuple(self.ev(x) for x in t[1])
         if k == 'un' and t[1] == 'not':
             return not self.ev(t[2])
         if k in ('and', 'or'):
@@ -74,7 +78,7 @@ class StrEval:
         if k == 'meth':
             b = self.ev(t[2])
             args = [self.ev(a) for a in t[3]]
-            if t[1] in ('lstrip', 'strip', 'rstrip', 'split', 'startswith'):
+            if t[1] in ('lstrip', 'strip', 'rstrip', 'split', 'startswith', 'get', 'keys'):
                 return getattr(b, t[1])(*args)
         if k == 'cmp':
             a, b = self.ev(t[2]), self.ev(t[3])
@@ -126,8 +130,12 @@ def rule_comparators(ctx, rid):
             name_t, func_t, val_t = e.value[1]
             se = StrEval({cond: text})
             problems = []
-            if func_t != ('ref', want):
-                problems.append('comparator %s' % show(func_t))
+            try:
+                func_v = se.ev(func_t)
+            except (ValueError, IndexError, TypeError, KeyError):
+                func_v = func_t
+            if func_v != ('ref', want):
+                problems.append('comparator %s' % show(func_v if isinstance(func_v, tuple) else func_t)[:60])
             try:
                 if se.ev(name_t) != 'metric':
                     problems.append('metric name %r' % se.ev(name_t))
@@ -161,12 +169,13 @@ def rule_conjunction(ctx, rid):
     bad = None
     n = 0
     for e in exits:
+        accs = {t[1].split('@')[0] for t in subterms(e.value) if t[0] == 's' and '@F' in t[1]}
         for ls in e.state.loops:
             if ls.kind != 'for':
                 continue
             for kind, b in ls.body_states:
                 for eff in b.effects:
-                    if eff[0] == 'setitem' and eff[5] == 'out':
+                    if eff[0] == 'setitem' and eff[5] in accs:
                         n += 1
                         val = eff[3]
                         idx = eff[2]
@@ -192,48 +201,76 @@ def rule_conjunction(ctx, rid):
         ctx.passed(rid, fi, c2, '%d store states' % n)
 
 
-def rule_counters(ctx, rid):
-    P = ctx.P
-    alg = mk_algebra()
-    fi = P.func('emd.cycles.get_subset_vector')
-    exits = [e for e in Evaluator(P).run(fi) if e.kind == 'return']
-    ctx.paths += len(exits)
-    c1 = 'subset vector: -1 for unselected cycles, running counter for selected ones'
-    bad = None
-    n = 0
+def _loop_store_paths(exits, array_hint=None):
+    """[(loop summary, body state, [setitem effects at the loop variable])] for the for-loops of the exits"""
+    out = []
     for e in exits:
         for ls in e.state.loops:
             if ls.kind != 'for':
                 continue
             for kind, b in ls.body_states:
-                sel = None
-                for cn, truth, ln in b.conds:
-                    if cn[0] == 'cmp' and cn[2] == ('sub', S(fi.params[0]), ls.var) and cn[3] == C(0) and cn[1] == '==':
-                        sel = not truth
-                    if cn[0] == 'sub' and cn == ('sub', S(fi.params[0]), ls.var):
-                        sel = truth
-                for eff in b.effects:
-                    if eff[0] == 'setitem' and eff[2] == ls.var:
-                        n += 1
-                        cname = [k for k, v in ls.head_env.items() if v[0] == 's' and v[1].startswith('count@')]
-                        head = ls.head_env.get('count')
-                        if sel is True:
-                            if eff[3] != head or alg.poly(b.env.get('count')) - alg.poly(head) != alg.poly(C(1)):
-                                bad = 'selected cycle gets %s, counter becomes %s' % (show(eff[3]), show(b.env.get('count')))
-                        elif sel is False:
-                            if eff[3] != C(-1) or b.env.get('count') != head:
-                                bad = 'unselected cycle gets %s' % show(eff[3])
-                        else:
-                            bad = 'store not guarded by the selection flag'
-            if ls.entry_env.get('count') != C(0):
-                bad = 'counter starts at %s' % show(ls.entry_env.get('count', NONE))
+                stores = [eff for eff in b.effects if eff[0] == 'setitem' and eff[2] == ls.var]
+                out.append((ls, b, stores))
+    return out
+
+
+def rule_counters(ctx, rid):
+    P = ctx.P
+    alg = mk_algebra()
+    # ---- subset vector
+    fi = P.func('emd.cycles.get_subset_vector')
+    exits = [e for e in Evaluator(P).run(fi) if e.kind == 'return']
+    ctx.paths += len(exits)
+    c1 = 'subset vector: -1 for unselected cycles, running counter for selected ones'
+    bad = None
+    n_sel = n_unsel = 0
+    sel_term = ('sub', S(fi.params[0]), None)
+    for ls, b, stores in _loop_store_paths(exits):
+        sel = None
+        for cn, truth, ln in b.conds:
+            if cn[0] == 'cmp' and cn[2] == ('sub', S(fi.params[0]), ls.var) and cn[3] in (C(0), C(False)) \
+                    and cn[1] == '==':
+                sel = not truth
+            elif cn[0] == 'cmp' and cn[2] == ('sub', S(fi.params[0]), ls.var) and cn[3] in (C(0), C(False)) \
+                    and cn[1] == '!=':
+                sel = truth
+            elif cn == ('sub', S(fi.params[0]), ls.var):
+                sel = truth
+        if sel is None:
+            bad = 'a loop path is not decided by the selection flag valids[i]'
+            continue
+        if sel:
+            n_sel += 1
+            if len(stores) != 1:
+                bad = 'a selected cycle gets %d writes' % len(stores)
+                continue
+            val = stores[0][3]
+            if not (val[0] == 's' and '@F' in val[1]):
+                bad = 'selected cycle gets %s, not the running counter' % show(val)[:40]
+                continue
+            cname = val[1].split('@')[0]
+            if alg.poly(b.env.get(cname)) - alg.poly(val) != alg.poly(C(1)):
+                bad = 'counter becomes %s after a selected cycle' % show(b.env.get(cname))[:40]
+            if ls.entry_env.get(cname) != C(0):
+                bad = 'counter starts at %s' % show(ls.entry_env.get(cname, NONE))
+        else:
+            n_unsel += 1
+            for st_ in stores:
+                if st_[3] != C(-1):
+                    bad = 'unselected cycle gets %s' % show(st_[3])[:40]
+            # no counter may move on this path
+            for name, head in ls.head_env.items():
+                if head[0] == 's' and '@F' in head[1] and name in b.env and b.env[name] != head \
+                        and not name.startswith(fi.params[0]) and b.env[name][0] != 'setitem' \
+                        and name != (ls.var[1].split('@')[0] if ls.var[0] == 's' else ''):
+                    bad = 'variable %s changes on an unselected cycle' % name
     if bad:
         ctx.violation(rid, fi, c1, bad)
-    elif n < 2:
-        ctx.undecided(rid, fi, c1, 'stores found: %d' % n)
+    elif n_sel == 0 or n_unsel == 0:
+        ctx.undecided(rid, fi, c1, 'selected paths: %d, unselected paths: %d' % (n_sel, n_unsel))
     else:
-        ctx.passed(rid, fi, c1, '%d store states' % n)
-    # chains
+        ctx.passed(rid, fi, c1, '%d selected / %d unselected loop paths' % (n_sel, n_unsel))
+    # ---- chain vector
     fi = P.func('emd.cycles.get_chain_vector')
     exits = [e for e in Evaluator(P).run(fi) if e.kind == 'return']
     ctx.paths += len(exits)
@@ -242,50 +279,81 @@ def rule_counters(ctx, rid):
     gaps = ('sub', ('ref', 'numpy.r_'), ('tuple', (C(1), ('call', 'numpy.diff', (inds,), ()))))
     c2 = 'chain vector: index gap 1 keeps the chain, gap > 1 opens the next one'
     c3 = 'chain vector: gaps are differences of the selected cycle indices, the first element starts chain 0'
+
+    def strip_gap(t):
+        # r_[1, diff(inds)][:len(inds)] == r_[1, diff(inds)] for non-empty inds
+        if t[0] == 'sub' and t[2][0] == 'slice' and t[2][1] == NONE and t[2][3] == NONE \
+                and t[2][2] == ('call', 'builtins.len', (inds,), ()):
+            return t[1]
+        return t
     bad = None
     n = 0
     gap_terms = set()
-    for e in exits:
-        for ls in e.state.loops:
-            if ls.kind != 'for':
-                continue
-            head = ls.head_env.get('count')
-            for kind, b in ls.body_states:
-                rel = None
-                for cn, truth, ln in b.conds:
-                    if cn[0] == 'cmp' and cn[2][0] == 'sub' and cn[2][2] == ls.var:
-                        gap_terms.add(cn[2][1])
-                        if cn[1] == '==' and cn[3] == C(1) and truth:
-                            rel = 'same'
-                        elif cn[1] == '>' and cn[3] == C(1) and truth:
-                            rel = 'new'
-                        elif cn[1] == '>=' and cn[3] == C(2) and truth:
-                            rel = 'new'
-                stores = [eff for eff in b.effects if eff[0] == 'setitem' and eff[2] == ls.var]
-                for eff in stores:
+    paths = _loop_store_paths(exits)
+    if paths:
+        for ls, b, stores in paths:
+            rel = None
+            for cn, truth, ln in b.conds:
+                if cn[0] == 'cmp' and cn[2][0] == 'sub' and cn[2][2] == ls.var:
+                    gap_terms.add(strip_gap(cn[2][1]))
+                    if cn[1] == '==' and cn[3] == C(1) and truth:
+                        rel = 'same'
+                    elif cn[1] == '>' and cn[3] == C(1) and truth:
+                        rel = 'new'
+                    elif cn[1] == '>=' and cn[3] == C(2) and truth:
+                        rel = 'new'
+            for eff in stores:
+                n += 1
+                val = eff[3]
+                heads = [h for h in ls.head_env.values() if h[0] == 's' and '@F' in h[1]]
+                cnt = [h for h in heads if h in set(subterms(val)) and h != ls.var]
+                if rel is None or len(cnt) != 1:
+                    bad = 'chain label written under an unrecognised gap test'
+                    continue
+                head = cnt[0]
+                cname = head[1].split('@')[0]
+                if rel == 'same':
+                    if val != head or b.env.get(cname) != head:
+                        bad = 'gap 1 writes %s' % show(val)
+                else:
+                    if alg.poly(val) - alg.poly(head) != alg.poly(C(1)) or \
+                            alg.poly(b.env.get(cname)) - alg.poly(head) != alg.poly(C(1)):
+                        bad = 'gap > 1 writes %s, counter %s' % (show(val), show(b.env.get(cname)))
+                if ls.entry_env.get(cname) != C(0):
+                    bad = 'chain counter starts at %s' % show(ls.entry_env.get(cname, NONE))
+        form = 'loop'
+    else:
+        # vectorised form:  chain[g >= 1] = cumsum(g > 1)[g >= 1]   on a -1-initialised vector
+        form = 'vectorised'
+        for e in exits:
+            v = e.value
+            if v[0] == 'setitem' and v[2][0] == 'cmp' and v[3][0] == 'sub' and v[3][2] == v[2]:
+                m = v[2]
+                g = strip_gap(m[2])
+                cs = v[3][1]
+                if m[1] == '>=' and m[3] == C(1) and cs[0] == 'call' and cs[1] == 'numpy.cumsum' and cs[2] \
+                        and cs[2][0][0] == 'cmp' and cs[2][0][1] == '>' and cs[2][0][3] == C(1) \
+                        and strip_gap(cs[2][0][2]) == g:
                     n += 1
-                    if rel == 'same':
-                        if eff[3] != head or b.env.get('count') != head:
-                            bad = 'gap 1 writes %s' % show(eff[3])
-                    elif rel == 'new':
-                        if alg.poly(eff[3]) - alg.poly(head) != alg.poly(C(1)) or \
-                                alg.poly(b.env.get('count')) - alg.poly(head) != alg.poly(C(1)):
-                            bad = 'gap > 1 writes %s, counter %s' % (show(eff[3]), show(b.env.get('count')))
-                    else:
-                        bad = 'chain label written under an unrecognised gap test'
-            if ls.entry_env.get('count') != C(0):
-                bad = 'chain counter starts at %s' % show(ls.entry_env.get('count', NONE))
+                    gap_terms.add(g)
+                    base = v[1]
+                    if not (base[0] == 'bin' and base[1] == '-' and base[3] == C(1) and 'zeros' in show(base[2])):
+                        bad = 'vector is not initialised to -1: %s' % show(base)[:40]
+                else:
+                    bad = 'unrecognised vectorised labelling %s' % show(v)[:100]
     if bad:
         ctx.violation(rid, fi, c2, bad)
-    elif n < 2:
-        ctx.undecided(rid, fi, c2, 'stores found: %d' % n)
+    elif n < (2 if form == 'loop' else 1):
+        ctx.undecided(rid, fi, c2, 'cannot read how chain labels are assigned (neither the counting loop nor the '
+                      'cumulative-sum form)')
     else:
-        ctx.passed(rid, fi, c2, '%d store states' % n)
+        ctx.passed(rid, fi, c2, '%s form, %d labelling state(s)' % (form, n))
     if gap_terms == {gaps}:
         ctx.passed(rid, fi, c3)
+    elif not gap_terms:
+        ctx.undecided(rid, fi, c3, 'no gap vector found')
     else:
-        ctx.violation(rid, fi, c3, 'gap vector is %s' % [show(g)[:80] for g in gap_terms],
-                      expected=show(gaps))
+        ctx.violation(rid, fi, c3, 'gap vector is %s' % [show(g)[:80] for g in gap_terms], expected=show(gaps))
     # initial fill of both vectors is -1
     for q, txt in (('emd.cycles.get_subset_vector', 'subset'), ('emd.cycles.get_chain_vector', 'chain')):
         f2 = P.func(q)
@@ -391,19 +459,33 @@ def rule_cache(ctx, rid):
     c = 'cache boundaries are [0] ++ (positions where the label increments) ++ [N]'
     cv = S(fi.params[0])
     inc = ('bin', '+', ('sub', ('call', 'numpy.where', (('cmp', '==', ('call', 'numpy.diff', (cv,), (('axis', C(0)),)), C(1)),), ()), C(0)), C(1))
-    starts = ('sub', ('ref', 'numpy.r_'), ('tuple', (C(0), inc)))
-    stops = ('sub', ('ref', 'numpy.r_'), ('tuple', (inc, ('call', 'builtins.len', (cv,), ()))))
+    nlen = ('call', 'builtins.len', (cv,), ())
+    A = cyclevec.get(ctx, False, False)
     ok = False
-    if len(exits) == 1 and exits[0].value[0] == 'comp':
+    found = ''
+    if len(exits) == 1 and exits[0].value[0] == 'comp' and len(exits[0].value[3]) == 1:
         comp = exits[0].value
-        var = comp[3][0][0]
-        want = ('call', 'builtins.slice', (('sub', starts, var), ('sub', stops, var)), ())
-        it = comp[3][0][1]
-        ok = comp[2] == want and it == ('call', 'builtins.range', (('call', 'builtins.len', (starts,), ()),), ())
+        var, it, cnds = comp[3][0]
+        elt = comp[2]
+        S_t = T_t = None
+        if elt[0] == 'call' and elt[1] == 'builtins.slice' and len(elt[2]) == 2 and not cnds:
+            a0, a1 = elt[2]
+            if it[0] == 'call' and it[1] == 'builtins.zip' and len(it[2]) == 2 and var[0] == 'tuple' \
+                    and (a0, a1) == tuple(var[1]):
+                S_t, T_t = it[2]
+            elif a0[0] == 'sub' and a1[0] == 'sub' and a0[2] == var and a1[2] == var and it[0] == 'call' \
+                    and it[1] == 'builtins.range' and it[2] in ((('call', 'builtins.len', (a0[1],), ()),),
+                                                                 (('call', 'builtins.len', (a1[1],), ()),)):
+                S_t, T_t = a0[1], a1[1]
+        if S_t is not None:
+            sp = A.decode_boundaries(S_t)
+            tp = A.decode_boundaries(T_t)
+            ok = (sp == [C(0), inc] and tp == [inc, nlen])
+            found = 'starts %s / stops %s' % ([show(x)[:40] for x in sp], [show(x)[:40] for x in tp])
     if ok:
         ctx.passed(rid, fi, c)
     else:
-        ctx.violation(rid, fi, c, 'cache is %s' % (show(exits[0].value)[:160] if exits else 'not returned'))
+        ctx.violation(rid, fi, c, 'cache is %s' % (found or (show(exits[0].value)[:160] if exits else 'not returned')))
 
 
 def rule_recompute(ctx, rid):
